@@ -16,6 +16,7 @@ mod gen;
 mod model;
 mod props;
 mod tol;
+mod xform;
 
 use engine::{replay_cmd, run_property, Outcome, Prop, Tier};
 use std::path::Path;
@@ -43,6 +44,11 @@ registry! {
     "C02" => props::c02::C02,
     "C03" => props::c03::C03,
     "C04" => props::c04::C04,
+    "C08" => props::c08::C08,
+    "C09" => props::c09::C09,
+    "C11" => props::c11::C11,
+    "C12" => props::c12::C12,
+    "C14" => props::c14::C14,
 }
 
 fn main() {
